@@ -179,6 +179,16 @@ def hashDir (sha : Bytes → Bytes) (root : Root) (pfx : Bytes) : Except Err Byt
   | .error e => .error e
   | .ok names => hash1 sha names (osOpen (rootFiles root) pfx)
 
+/-! ### directory spellings: `dir = filepath.Clean(dir)` is the first statement of DirFiles, and HashDir's
+    `filepath.Join(dir, ...)` cleans as well, so only the cleaned spelling of `dir` reaches the file system.
+    `fs` maps a clean path to what it names. -/
+
+def dirFilesAt (fs : Bytes → Root) (dir pfx : Bytes) : Except Err (List Bytes) :=
+  dirFiles (fs (clean dir)) pfx
+
+def hashDirAt (sha : Bytes → Bytes) (fs : Bytes → Root) (dir pfx : Bytes) : Except Err Bytes :=
+  hashDir sha (fs (clean dir)) pfx
+
 /-! ### HashZip -/
 
 /-- `zfiles[file.Name] = file` in a loop: the last entry with a name wins -/
